@@ -426,6 +426,7 @@ class Session:
     def _script(self, RE, Msg, RunEngineInterrupted):
         scn = self.scn
         subs, md = scn.call_args(self.d)
+        scn.sess = self  # scenarios may instrument inner plans (Session._logged)
         plan = scn.plan(self.d)
         if getattr(scn, "track", True):
             plan = self._tracked(plan)
